@@ -39,6 +39,9 @@ def blockOf : List Nat → Nat → Option (Nat × Nat)
   | [], _ => none
   | c :: cs, p => if p < c then some (0, p) else (blockOf cs (p - c)).map (fun (b, o) => (b + 1, o))
 
+/-- start offset of block `b` -/
+def blockStart (cs : List Nat) (b : Nat) : Nat := sum (cs.take b)
+
 /-- cut a list into consecutive blocks of the given lengths. -/
 def splitBy {α} : List Nat → List α → List (List α)
   | [], _ => []
@@ -156,6 +159,13 @@ def regroup1d (nd : Nat) (chunks : List Spec) : Except Err (List Spec) :=
      else .error .unsupported)
   else .ok chunks
 
+/-- a negative size: a negative int (other than the `-1` already replaced) or a tuple with a negative entry -/
+def Spec.isNeg : Spec → Bool
+  | .int c => decide (c < 0)
+  | .flt c => decide (c < 0)
+  | .tup t => t.any (· < 0)
+  | _ => false
+
 /-- first half of `normalize_chunks`: the per-dimension entries just before `auto_chunks` is
     consulted (byte strings already turned into `"auto"`). -/
 def preNormalize (top : Top) (shape : List Nat) (limit : Option Nat) : Except Err (List Spec) :=
@@ -164,19 +174,21 @@ def preNormalize (top : Top) (shape : List Nat) (limit : Option Nat) : Except Er
   | .ok chunks =>
     -- `if shape and len(chunks) != len(shape): raise ValueError`
     if !shape.isEmpty && chunks.length ≠ shape.length then .error .value
+    -- `for c in chunks: if c < 0 (or a tuple with a negative entry): raise ValueError` — before auto_chunks
+    else if (fillFull' chunks shape).any Spec.isNeg then .error .value
     else
       match resolveLimit (fillFull' chunks shape) limit with
       | .error e => .error e
       | .ok _ => .ok ((fillFull' chunks shape).map bytesToAuto)
 
 /-- second half of `normalize_chunks`: ints ↦ block tuples, then the three validations
-    (`Empty tuples are not allowed`, no negative size, `Chunks do not add up to shape`). -/
+    (`Empty tuples are not allowed`, `Chunks do not add up to shape`; negative sizes were rejected in the first half). -/
 def finalize (shape : List Nat) (chunks : List Spec) : Except Err (List (List Int)) :=
   match (if chunks.isEmpty then .ok [] else convertInts shape chunks) with
   | .error e => .error e
   | .ok out =>
-    -- `for c in chunks: if not c: raise ValueError ; if min(c) < 0: raise ValueError`
-    if out.any (fun c => c.isEmpty || c.any (· < 0)) then .error .value
+    -- `for c in chunks: if not c: raise ValueError("Empty tuples are not allowed in chunks…")`
+    if out.any List.isEmpty then .error .value
     -- `if not allints and shape is not None: … raise ValueError("Chunks do not add up to shape")`
     else if !chunks.all Spec.isInt && !sumsMatch out shape then .error .value
     else .ok out
